@@ -2,6 +2,7 @@
 with Model/Filter.lean + direct oracle (Fraction list comprehension) + metamorphic checks on the implementation's own outputs."""
 import datetime
 import decimal
+import math
 import os
 import tempfile
 from fractions import Fraction
@@ -22,7 +23,8 @@ LEVEL_NOTE = ("Statement text parsing (str.split, float(text), datetime.strptime
 DESIGN_REF = "DESIGN.md §4 C04"
 TECHNIQUE = "Lean 4 proof over an exact executable model + differential correspondence on call histories + exact oracle"
 
-THEOREMS = ["CatFilter.holds_iff", "CatFilter.holds_at_threshold", "CatFilter.filter_eq", "CatFilter.filter_mem_iff",
+THEOREMS = ["CatFilter.holds_iff", "CatFilter.holds_at_threshold", "CatFilter.holds_originTime_frac",
+            "CatFilter.holds_originTime_eq_frac", "CatFilter.filter_eq", "CatFilter.filter_mem_iff",
             "CatFilter.filter_count", "CatFilter.filter_sublist", "CatFilter.filter_perm", "CatFilter.filter_append",
             "CatFilter.filter_single", "CatFilter.filter_separately", "CatFilter.filter_comm", "CatFilter.filter_idem",
             "CatFilter.datetime_stmt_eq", "CatFilter.datetime_holds_iff", "CatFilter.datetime_floor_ms",
@@ -40,7 +42,9 @@ TRUSTED = ["Lean 4.33 kernel", "axioms: propext, Classical.choice, Quot.sound at
            "harness/c04.py generators, canonicalisation and comparison; driver parsing (Drive/C04.lean, Proto.lean)"]
 RULE = ("histories of 1..6 calls (filter with string / list / tuple / None statements, filter_spatial; both in_place values; any "
         "object of the history as target) on catalogs of 0..50 events whose attribute values come from small pools (ties); "
-        "thresholds drawn from the catalog's own values (equality), their 1-ulp / 1-ms neighbours, or at random; all 5 "
+        "thresholds drawn from the catalog's own values (equality), their 1-ulp / 1-ms neighbours, own values moved by a "
+        "fraction of a unit (origin_time thresholds that are not whole milliseconds: X+-0.5, X+-0.4, 1000*timestamp(), negative "
+        "fractions; same offsets on the float columns), or at random; all 5 "
         "attributes x 5 operators; datetime statements in 4 text layouts at millisecond boundaries with sub-millisecond digits; "
         "after every call every object of the history is snapshotted (ids in order + all fields). A history is non-trivial "
         "when some call kept a proper non-empty subset or hit a threshold equal to an event's value; distinct by "
@@ -53,6 +57,8 @@ OPF = {"gt": lambda a, v: a > v, "lt": lambda a, v: a < v, "ge": lambda a, v: a 
        "eq": lambda a, v: a == v}
 COL = {"t": 1, "lat": 2, "lon": 3, "dep": 4, "mag": 5}
 EPOCH = datetime.datetime(1970, 1, 1)
+# fractional distances of a threshold from a whole number (a millisecond for origin_time, an integer-valued attribute otherwise)
+FRAC_OFFSETS = [0.5, -0.5, 0.5, -0.5, 0.4, -0.4, 0.6, -0.6, 0.25, -0.25, 0.75, -0.75, 0.999, -0.999, 0.001, -0.001, 0.125, -0.125]
 
 
 # ----------------------------------------------------------------------------- canonical forms
@@ -148,6 +154,28 @@ def gen_stmt(rng, rows, allow_dt=True):
                 s = dt.strftime("%Y-%m-%d %H:%M:%S.%f") + "+00:00"
             enc = f"dt,{op},{dt.year},{dt.month},{dt.day},{dt.hour},{dt.minute},{dt.second},{dt.microsecond}"
             return dict(text=f"datetime {sym} {s}", enc=enc, attr="t", op=op, value=str(v), kind="datetime:" + layout)
+        if rng.random() < 0.3:
+            # threshold that is NOT a whole number of milliseconds: the int64 column is compared with the double as it is
+            # (no truncation / rounding of the threshold to the column's dtype). Around an own instant X (or 0, -1, 1):
+            # midpoints X +- 0.5, X +- 0.4, X +- 0.999.., 1000 * datetime.timestamp() style values, negative fractions.
+            if rng.random() < 0.15:
+                v = rng.choice([0, 0, 1, -1, 2, -2])
+            kk = rng.random()
+            if kk < 0.55:
+                off = rng.choice(FRAC_OFFSETS)
+            elif kk < 0.8:
+                off = rng.uniform(-1.0, 1.0)
+            else:
+                off = None
+            if off is None:   # 1000 * datetime.timestamp() of an instant with microseconds (e.g. 1577836800123.4)
+                fv = 1000 * (float(v) / 1000.0 + rng.randrange(1, 1000) * 1e-6)
+            else:
+                fv = float(v) + off
+            txt = rng.choice([repr(fv), repr(fv), format(fv, ".17e"), format(fv, ".17g")])
+            assert float(txt) == fv and " " not in txt
+            kind = "origin_time-frac" if Fraction(fv).denominator != 1 else "origin_time"
+            return dict(text=f"{name} {sym} {txt}", enc=f"t,{op},{frac(fv)}", attr="t", op=op, value=str(Fraction(fv)),
+                        kind=kind)
         if rng.random() < 0.5:
             txt = str(v)                      # integer text, as tests/test_catalog.py writes it
         else:
@@ -155,15 +183,24 @@ def gen_stmt(rng, rows, allow_dt=True):
         assert float(txt) == v
         return dict(text=f"{name} {sym} {txt}", enc=f"t,{op},{v}", attr="t", op=op, value=str(v), kind="origin_time")
     k = rng.random()
-    if own and k < 0.6:
+    if own and k < 0.5:
         v = float(rng.choice(own))
-    elif own and k < 0.8:
+    elif own and k < 0.65:
         v = float(rng.choice(own))
         v = float(numpy.nextafter(v, rng.choice([-numpy.inf, numpy.inf])))
+    elif own and k < 0.8:
+        # an own value (or its integer part / 0) moved by a fraction of a unit: thresholds such as X.5, -0.5, X +- 0.4 must be
+        # compared as they are (not truncated, rounded or cast)
+        v = float(rng.choice(own))
+        if rng.random() < 0.5:
+            v = float(math.trunc(v))
+        if rng.random() < 0.15:
+            v = rng.choice([0.0, -0.0, 1.0, -1.0])
+        v = v + (rng.choice(FRAC_OFFSETS) if rng.random() < 0.7 else rng.uniform(-1.0, 1.0))
     else:
         lo, hi = {"lat": (-90, 90), "lon": (-180, 180), "dep": (0, 700), "mag": (0, 10)}[key]
         v = rng.choice([rng.uniform(lo, hi), float(rng.randrange(lo, hi + 1)), round(rng.uniform(lo, hi), 1)])
-    txt = repr(v)
+    txt = repr(v) if rng.random() < 0.85 else rng.choice([format(v, ".17e"), format(v, ".17g")])
     assert float(txt) == v and " " not in txt
     return dict(text=f"{name} {sym} {txt}", enc=f"{key},{op},{frac(v)}", attr=key, op=op, value=str(Fraction(v)), kind=key)
 
@@ -364,6 +401,13 @@ def run_history(run, drv, pending, case):
                     nontriv = True
                 for s in sts:
                     run.count("stmt:" + s["kind"].split(":")[0] + ":" + s["op"])
+                    fv = Fraction(s["value"])
+                    if fv.denominator != 1:
+                        run.count("frac-threshold:" + s["attr"])
+                        # an event sits on the threshold's integer neighbour: truncating / rounding the threshold flips it
+                        if any(rowval(r, s["attr"]) in (math.floor(fv), math.ceil(fv)) for r in tst["rows"]):
+                            run.count("frac-threshold-hit:" + s["attr"])
+                            nontriv = True
                     if s["kind"].startswith("datetime"):
                         run.count("layout:" + s["kind"].split(":")[1])
             line_calls.append(f"f:{tg}:{int(call['in_place'])}:" +
